@@ -217,8 +217,8 @@ impl TokenBucketBudget {
         const SCALE: u64 = 1000;
         Self {
             // The balance never exceeds the maximum, not even before the first deposit
-            tokens: AtomicU64::new((initial_tokens.min(max_tokens) as u64) * SCALE),
-            max_tokens: (max_tokens as u64) * SCALE,
+            tokens: AtomicU64::new((initial_tokens.min(max_tokens) as u64).saturating_mul(SCALE)),
+            max_tokens: (max_tokens as u64).saturating_mul(SCALE),
         }
     }
 }
